@@ -500,6 +500,51 @@ static void canary_body(long lid, std::uint64_t seed, int cls)
     g_done.fetch_add(1);
 }
 
+// State owned by a task's own function object (closure): its destructor runs after the thread function has returned but
+// still belongs to the task - it must see the task's identity and may yield (coroutine_impl::reset destroys the function
+// before it drops the thread id for exactly this reason).
+static std::atomic<long> g_sessions_closed{0};
+static std::atomic<long> g_session_yields_migrated{0};
+struct session
+{
+    bool armed = false;
+    ptd::thread_id_type id;
+    void* td = nullptr;
+    int yields = 0;
+    session() = default;
+    session(session&& o) noexcept
+      : armed(o.armed)
+      , id(o.id)
+      , td(o.td)
+      , yields(o.yields)
+    {
+        o.armed = false;
+    }
+    session(session const&) = delete;
+    ~session()
+    {
+        if (!armed) return;
+        auto check = [&](char const* where) {
+            if (ptd::get_self_ptr() == nullptr || ptd::get_self_id() != id)
+                monitor(std::string("closure-owned state destroyed outside its task's identity: thread id invalid or changed ") + where);
+            else if (static_cast<void*>(ptd::get_self_id_data()) != td)
+                monitor(std::string("closure-owned state destroyed outside its task's identity: thread_data object changed ") + where);
+        };
+        check("when the function object is destroyed");
+        if (ptd::get_self_ptr() != nullptr && ptd::get_self_id() == id)
+        {
+            std::size_t w0 = pika::get_worker_thread_num();
+            for (int i = 0; i < yields; ++i)
+            {
+                pika::this_thread::yield();
+                check("after a yield inside the destructor of the function object");
+            }
+            if (pika::get_worker_thread_num() != w0) g_session_yields_migrated.fetch_add(1);
+        }
+        g_sessions_closed.fetch_add(1);
+    }
+};
+
 static void spawn_canary(rng& r, int round)
 {
     long lid = g_ids.fetch_add(1);
@@ -560,6 +605,31 @@ static int run_canary(std::uint64_t seed, int rounds, int per_round)
                     }
                 }
                 while (!finished.load()) pika::this_thread::yield();
+            }
+            // threads whose closure owns state with a destructor that uses the task's identity and yields
+            if (pika::thread::hardware_concurrency() > 0)
+            {
+                long const closed0 = g_sessions_closed.load();
+                int started_sessions = 0;
+                for (int k = 0; k < 3; ++k)
+                {
+                    session sess;
+                    sess.yields = int(r.below(4));
+                    pika::thread st([sess = std::move(sess)]() mutable {
+                        check_clean_start("session thread");
+                        sess.id = ptd::get_self_id();
+                        sess.td = static_cast<void*>(ptd::get_self_id_data());
+                        sess.armed = true;
+                        if (sess.yields & 1) pika::this_thread::yield();
+                    });
+                    if (st.joinable())
+                    {
+                        ++started_sessions;
+                        try { st.join(); } catch (...) {}
+                    }
+                }
+                // join returns when the thread function has returned; the closure is destroyed right after that
+                while (g_sessions_closed.load() < closed0 + started_sessions) pika::this_thread::yield();
             }
             while (g_done.load() < base + per_round || g_helpers_done.load() < g_helpers.load())
                 pika::this_thread::yield();
